@@ -10,5 +10,6 @@ CONSTANTS
   Questions <- Q01
   AllowEnd = TRUE
   MaxRequery = 0
+  FixCommitState = TRUE
 INVARIANTS EmitLong40
 CHECK_DEADLOCK FALSE
